@@ -69,6 +69,10 @@ def _case(job):
         ops.append(["chdir", "a"])
     ents = [[E(text), E(bg), large], [E("#777777"), E("#ffffff"), True], [E("bogus"), E("#fff")], [E(text), E(bg), large],
             [E(list(a)), E(list(b))], [E([a[0], a[1], a[2], 0.5]), E(bg)]]
+    if save and seed % 2:
+        # nothing to report: an empty list, and a list of entries that are all invalid
+        ops.append(["bulk", [], m, vr, True, "list"])
+        ops.append(["bulk", [[E("bogus"), E("#fff")], [E((300, 0, 0)), E("nope"), True]], m, vr, True, "list"])
     how = ("list", "tuple", "iter", "gen")[seed % 4]       # the entries as a list, a tuple, or a one-shot iterator
     ops.append(["bulk", ents, m, vr, False, how])
     if save:
@@ -123,6 +127,13 @@ def main():
     long_raw = apirec.run_fresh(long_ops, hashseed="0", observe_env=True)
     traces.append(apirec.to_events(long_raw, keys, cols))
     rep.extra["long_history_calls_under_lowered_fd_limit"] = len(long_ops) - 1
+    # a process in which the library was first imported under a temporary stdout that has been closed since: previews still work
+    imp_ops = [["new", 1, E("#777777"), E("#ffffff"), False], ["fix", 1, 1, False, False, False], ["fix", 1, 1, False, True, False],
+               ["new", 2, E("#808080"), E("#808080"), False], ["fix", 2, 1, False, False, False], ["fix", 2, 1, False, True, True],
+               ["new", 3, E("rgb(200, 200, 200)"), E("white"), True], ["fix", 3, 2, True, False, False], ["fix", 3, 2, True, True, False],
+               ["bulk", [[E("#777777"), E("#ffffff")]], 1, False, True]]
+    imp_raw = apirec.run_fresh(imp_ops, hashseed="0", observe_env=True, env_extra={"VERIF_IMPORT_UNDER_TMP_STDOUT": "1"})
+    traces.append(apirec.to_events(imp_raw, keys, cols))
     agg = vlib.validate_traces("TrApi", traces, min_per_shard=30)
     rep.add_traces(agg, len(traces))
     rep.evaluations = sum(len(tr) for tr in traces)
@@ -140,7 +151,7 @@ def main():
         mine = [f for f in bad["fails"] if f.startswith("C17_")]
         if mine:
             tid = bad["tid"]
-            src = {"case": jobs[tid][0], "input": repr(res[tid][1])} if tid < len(jobs) else {"case": "import cm_colors in a fresh interpreter" if tid == len(jobs) else "long history of report-writing calls in a fresh interpreter with RLIMIT_NOFILE = 96"}
+            src = {"case": jobs[tid][0], "input": repr(res[tid][1])} if tid < len(jobs) else {"case": ("import cm_colors in a fresh interpreter", "long history of report-writing calls in a fresh interpreter with RLIMIT_NOFILE = 96", "library first imported under a temporary stdout that was closed afterwards")[min(2, tid - len(jobs))]}
             rep.violation("/".join(mine), dict(src, behaviour=traces[tid],
                           reproduce="run the operations of `behaviour` in an empty working directory; dout = bytes on stdout+stderr, newFiles/modFiles = directory diff"))
     return rep.finish()
